@@ -28,6 +28,20 @@ var allKinds = []string{
 	"once-", "once+", "oncec-", "oncec+", "flush-", "flush+", "join-", "join+",
 	"fnget-", "fnget+", "fnign-", "fnign+", "fnwith+",
 	"fncap-", "fncap+", "fncap2-", "fncap2+", "fndrop-", "fndrop+", "capslot-", "capslot+", "capchain-", "capchain+",
+	"fwdslot-", "fwdslot+", "fwdinner-", "fwdinner+", "fwdafter-", "fwdafter+", "fwdtwice-", "fwdtwice+", "fwdign-", "fwdign+", "fwdpass-", "fwdpass+",
+	"fwdsame-", "fwdsame+", "fwdnop-", "fwdnop+", "fwd2-", "fwd2+",
+}
+
+// fwdKinds: forwarding wrappers (hand-written function components that read
+// their children and hand them on to a generated callee with
+// templ.WithChildren WITHOUT clearing ctx first).
+var fwdKinds = []string{"fwdslot", "fwdinner", "fwdafter", "fwdtwice", "fwdign", "fwdpass", "fwdsame", "fwdnop", "fwd2"}
+
+// level2Kinds: the block-less calls expanded inline two blocks deep (all
+// others go through the nodes dispatcher there).
+var level2Kinds = map[string]bool{
+	"slot-": true, "twice-": true, "inner-": true, "after-": true, "once-": true, "flush-": true, "fnget-": true,
+	"fncap-": true, "fwdinner-": true, "fwdsame-": true,
 }
 
 // rendersBlock: callees that render the block they are given (so what is
@@ -36,12 +50,14 @@ var rendersBlock = map[string]bool{"slot+": true, "twice+": true, "pass+": true,
 
 // capturesBlock: callees that evaluate their block into a writer of their
 // own; expanded inline at level 0 only (keeps the package small).
-var capturesBlock = map[string]bool{"fncap+": true, "fncap2+": true, "fndrop+": true, "capslot+": true, "capchain+": true}
+var capturesBlock = map[string]bool{"fncap+": true, "fncap2+": true, "fndrop+": true, "capslot+": true, "capchain+": true,
+	"fwdslot+": true, "fwdafter+": true, "fwdtwice+": true, "fwdpass+": true, "fwdsame+": true, "fwd2+": true}
 
 func callExpr(kind, v string) string {
 	base := kind[:len(kind)-1]
 	switch base {
-	case "slot", "ign", "twice", "pass", "inner", "after", "fnget", "fnign", "fncap", "fncap2", "fndrop", "capslot", "capchain":
+	case "slot", "ign", "twice", "pass", "inner", "after", "fnget", "fnign", "fncap", "fncap2", "fndrop", "capslot", "capchain",
+		"fwdslot", "fwdinner", "fwdafter", "fwdtwice", "fwdign", "fwdpass", "fwdsame", "fwdnop", "fwd2":
 		return fmt.Sprintf("%s(%s.M)", base, v)
 	case "once":
 		return fmt.Sprintf("oh(%s.H).Once()", v)
@@ -59,14 +75,14 @@ func callExpr(kind, v string) string {
 var leafLevel = 2
 var maxLevel = 2
 
-func body(level int, list, ind string) string {
+func body(level int, list, ind string, expand bool) string {
 	v := fmt.Sprintf("t%d", level)
 	var sb strings.Builder
 	fmt.Fprintf(&sb, "%sfor _, %s := range %s {\n", ind, v, list)
 	fmt.Fprintf(&sb, "%s\tswitch %s.K {\n", ind, v)
 	for _, k := range allKinds {
 		plus := strings.HasSuffix(k, "+")
-		if level == leafLevel && plus {
+		if level == leafLevel && (plus || !level2Kinds[k]) {
 			continue
 		}
 		fmt.Fprintf(&sb, "%s\tcase %q:\n", ind, k)
@@ -81,9 +97,12 @@ func body(level int, list, ind string) string {
 		default:
 			fmt.Fprintf(&sb, "%s@%s {\n", in, callExpr(k, v))
 			fmt.Fprintf(&sb, "%s\t<div k=\"b\" m={ %s.M }>\n", in, v)
-			if (rendersBlock[k] && level < leafLevel && level+1 <= maxLevel) || (capturesBlock[k] && level == 0) {
-				sb.WriteString(body(level+1, v+".Kids", in+"\t\t"))
-			} else {
+			switch {
+			case expand && rendersBlock[k] && level < leafLevel && level+1 <= maxLevel:
+				sb.WriteString(body(level+1, v+".Kids", in+"\t\t", true))
+			case expand && capturesBlock[k] && level == 0: // one level only
+				sb.WriteString(body(level+1, v+".Kids", in+"\t\t", false))
+			default:
 				fmt.Fprintf(&sb, "%s\t\t@nodes(%s.Kids)\n", in, v)
 			}
 			fmt.Fprintf(&sb, "%s\t</div>\n", in)
@@ -148,7 +167,7 @@ templ capchain(m string) {
 }
 
 templ nodes(ts []T) {
-` + body(0, "ts", "\t") + `}
+` + body(0, "ts", "\t", true) + `}
 `
 }
 
@@ -192,6 +211,9 @@ func ohc(i int) *templ.OnceHandle { return onceCHandles[i%2] }
 // documented protocol for code components (GetChildren, then ClearChildren).
 func fnget(m string) templ.Component {
 	return templ.ComponentFunc(func(ctx context.Context, w io.Writer) error {
+		if err := enter(); err != nil {
+			return err
+		}
 		children := templ.GetChildren(ctx)
 		ctx = templ.ClearChildren(ctx)
 		if _, err := fmt.Fprintf(w, "<div k=\"fget\" m=\"%s\">", m); err != nil {
@@ -208,6 +230,9 @@ func fnget(m string) templ.Component {
 // fnign: hand-written leaf component that does not look at children at all.
 func fnign(m string) templ.Component {
 	return templ.ComponentFunc(func(ctx context.Context, w io.Writer) error {
+		if err := enter(); err != nil {
+			return err
+		}
 		_, err := fmt.Fprintf(w, "<div k=\"fign\" m=\"%s\"></div>", m)
 		return err
 	})
@@ -216,6 +241,19 @@ func fnign(m string) templ.Component {
 // budget: bytes the current job may still write to its output and to capture
 // buffers together (see limitWriter).
 var budget int
+
+// calls: how many hand-written components the current job may still render.
+// A runaway recursion through capture buffers writes nothing to the job's
+// output (every level buffers in a fresh writer), so the byte budget alone
+// would not stop it.
+var calls int
+
+func enter() error {
+	if calls--; calls < 0 {
+		return errLimit
+	}
+	return nil
+}
 
 // capBuf is the private writer of a capturing component.
 type capBuf struct{ bytes.Buffer }
@@ -232,6 +270,9 @@ func (c *capBuf) Write(p []byte) (int, error) {
 // what it captured, wrapped in its marker, times times.
 func capture(kind, m string, times int) templ.Component {
 	return templ.ComponentFunc(func(ctx context.Context, w io.Writer) error {
+		if err := enter(); err != nil {
+			return err
+		}
 		children := templ.GetChildren(ctx)
 		ctx = templ.ClearChildren(ctx)
 		var b capBuf
@@ -259,6 +300,9 @@ func fndrop(m string) templ.Component { return capture("drop", m, 0) }
 // given this component's children.
 func capslot(m string) templ.Component {
 	return templ.ComponentFunc(func(ctx context.Context, w io.Writer) error {
+		if err := enter(); err != nil {
+			return err
+		}
 		children := templ.GetChildren(ctx)
 		ctx = templ.ClearChildren(ctx)
 		var b capBuf
@@ -276,10 +320,86 @@ func capslot(m string) templ.Component {
 	})
 }
 
+// wrap renders c inside a marker element, with whatever ctx it is rendered with.
+func wrap(kind, m string, c templ.Component) templ.Component {
+	return templ.ComponentFunc(func(ctx context.Context, w io.Writer) error {
+		if err := enter(); err != nil {
+			return err
+		}
+		if _, err := fmt.Fprintf(w, "<div k=\"%s\" m=\"%s\">", kind, m); err != nil {
+			return err
+		}
+		if err := c.Render(ctx, w); err != nil {
+			return err
+		}
+		_, err := io.WriteString(w, "</div>")
+		return err
+	})
+}
+
+// fwd: forwarding wrapper. Reads its children, wraps them in a marker and
+// forwards them to a generated callee with templ.WithChildren, without
+// clearing ctx first (WithChildren overrides whatever ctx carried).
+func fwd(m string, inner func(string) templ.Component) templ.Component {
+	return templ.ComponentFunc(func(ctx context.Context, w io.Writer) error {
+		if err := enter(); err != nil {
+			return err
+		}
+		children := templ.GetChildren(ctx)
+		return inner(m+".f").Render(templ.WithChildren(ctx, wrap("w", m, children)), w)
+	})
+}
+
+func fwdslot(m string) templ.Component  { return fwd(m, slot) }
+func fwdinner(m string) templ.Component { return fwd(m, inner) }
+func fwdafter(m string) templ.Component { return fwd(m, after) }
+func fwdtwice(m string) templ.Component { return fwd(m, twice) }
+func fwdign(m string) templ.Component   { return fwd(m, ign) }
+func fwdpass(m string) templ.Component  { return fwd(m, pass) }
+
+// fwdsame forwards the very same children, unwrapped.
+func fwdsame(m string) templ.Component {
+	return templ.ComponentFunc(func(ctx context.Context, w io.Writer) error {
+		if err := enter(); err != nil {
+			return err
+		}
+		return after(m+".f").Render(templ.WithChildren(ctx, templ.GetChildren(ctx)), w)
+	})
+}
+
+// fwdnop forwards templ.NopComponent (its own children are dropped).
+func fwdnop(m string) templ.Component {
+	return templ.ComponentFunc(func(ctx context.Context, w io.Writer) error {
+		if err := enter(); err != nil {
+			return err
+		}
+		return after(m+".f").Render(templ.WithChildren(ctx, templ.NopComponent), w)
+	})
+}
+
+// fwd2: a chain of two forwarders.
+func fwd2(m string) templ.Component {
+	return templ.ComponentFunc(func(ctx context.Context, w io.Writer) error {
+		if err := enter(); err != nil {
+			return err
+		}
+		children := templ.GetChildren(ctx)
+		return fwdafter(m+".g").Render(templ.WithChildren(ctx, wrap("w1", m, children)), w)
+	})
+}
+
+var fwdFuncs = map[string]func(string) templ.Component{
+	"fwdslot-": fwdslot, "fwdinner-": fwdinner, "fwdafter-": fwdafter, "fwdtwice-": fwdtwice, "fwdign-": fwdign,
+	"fwdpass-": fwdpass, "fwdsame-": fwdsame, "fwdnop-": fwdnop, "fwd2-": fwd2,
+}
+
 // fnwith: hand-written component that passes children to a generated callee
 // from Go code with templ.WithChildren (documented usage).
 func fnwith(t T) templ.Component {
 	return templ.ComponentFunc(func(ctx context.Context, w io.Writer) error {
+		if err := enter(); err != nil {
+			return err
+		}
 		blk := templ.ComponentFunc(func(ctx context.Context, w io.Writer) error {
 			if _, err := fmt.Fprintf(w, "<div k=\"b\" m=\"%s\">", t.M); err != nil {
 				return err
@@ -341,7 +461,11 @@ func comps(as []T) []templ.Component {
 		case "flush-":
 			out = append(out, templ.Flush())
 		default:
-			out = append(out, nodes([]T{a}))
+			if f, ok := fwdFuncs[a.K]; ok {
+				out = append(out, f(a.M))
+			} else {
+				out = append(out, nodes([]T{a}))
+			}
 		}
 	}
 	return out
@@ -391,7 +515,7 @@ func main() {
 			os.Exit(3)
 		}
 		var lw limitWriter
-		budget = j.Limit
+		budget, calls = j.Limit, j.Limit
 		buf := &lw.buf
 		r := result{ID: j.ID}
 		func() {
